@@ -139,6 +139,27 @@ def run(ctx) -> RuleResult:
             if ok and dict_name == "REDUCE_MAPPINGS" and v.split(".")[-1] in source_table:
                 ok = source_table[v.split(".")[-1]] == k.split(".")[-1]
             result.ob(f"{dict_name}[{k}] = {v}", ok, where, f"numpy defines {v} by {expected}")
+            # __array_ufunc__ looks the mapped function up in UFUNC_COLLECTION
+            in_table = [reg for reg in ctx.regs if reg.kind in ("implements", "implements_ufunc")
+                        and any(numpyfacts.same_object(t, v) for t in reg.targets if not t.startswith("builtin:"))]
+            other = [reg for reg in ctx.regs if any(numpyfacts.same_object(t, v) for t in reg.targets
+                                                    if not t.startswith("builtin:"))]
+            if not other:
+                # mapped but implemented nowhere: both spellings raise FeatureNotSupported alike
+                result.exception(f"{dict_name}[{k}] = {v}", "numpoly implements no such function; the reduce/accumulate "
+                                                         "spelling and the function spelling both raise FeatureNotSupported")
+                continue
+            result.ob(f"{dict_name}[{k}] = {v} is registered in the ufunc table", bool(in_table), where, "")
+            if not in_table:
+                at = f" (registered only with @{other[0].kind} in {other[0].module.relpath})" if other else ""
+                result.add(Finding(
+                    "R-REG", other[0].module if other else module, other[0].func.name if other else "<module>",
+                    other[0].decorator if other else key,
+                    f"{dict_name} maps {k} to {v}, and __array_ufunc__ looks the mapped function up in UFUNC_COLLECTION, "
+                    f"but {v} is not entered into that table{at}: {k}.{'reduce' if dict_name.startswith('REDUCE') else 'accumulate'}"
+                    f"(poly) raises FeatureNotSupported while {v}(poly) works",
+                    construct=f"{dict_name}[{k}] -> {v} not in UFUNC_COLLECTION",
+                ))
             if not ok:
                 result.add(Finding(
                     "R-REG", module, "<module>", key,
